@@ -15,6 +15,10 @@ use crate::run::Args;
 use monlib::{gen, guarded, hex, Json, Report, Rng};
 use specmodel::{Mode, Node};
 
+// usize arithmetic that also compiles for 32-bit targets (where this monitor has no cases to run)
+const TWO31: usize = (1u64 << 31) as usize;
+const TWO32: usize = (1u64 << 32) as usize;
+
 fn subtree_par(key: &[u32; 8], bytes: &[u8], first_chunk: u64, flags: u32, depth: u32) -> Node {
     if depth == 0 || bytes.len() <= (1 << 20) {
         return specmodel::subtree(key, bytes, first_chunk, flags);
@@ -62,7 +66,7 @@ fn lengths(args: &Args, rng: &mut Rng) -> Vec<usize> {
     if usize::BITS < 64 {
         return vec![];
     }
-    let two31 = 1usize << 31;
+    let two31 = TWO31;
     let two32 = two31 * 2;
     if let Some(l) = args.get("len") {
         return vec![l.parse().expect("len")];
@@ -115,7 +119,7 @@ pub fn run(args: &Args) -> Report {
     // the reference implementation fed more than 2^32 bytes in one call (C15)
     #[cfg(feature = "full")]
     if what == "refimpl" {
-        let n = (1usize << 32) + 1024 * (1 + rng.usize_below(64)) + rng.usize_below(1025);
+        let n = TWO32 + 1024 * (1 + rng.usize_below(64)) + rng.usize_below(1025);
         let mut data = vec![0u8; n];
         fill_pattern(&mut data, rng.u64());
         let want = model_root(&Mode::Hash, &data).root_hash();
@@ -156,7 +160,7 @@ pub fn run(args: &Args) -> Report {
             v
         };
         rep.count("huge_input_bytes", n as u64);
-        rep.seen("size_class", if n > (1usize << 32) { ">2^32" } else { ">2^31" });
+        rep.seen("size_class", if n > TWO32 { ">2^32" } else { ">2^31" });
         for (mi, mode) in modes.iter().enumerate() {
             if zeros && mi == 2 {
                 continue;
@@ -186,7 +190,7 @@ pub fn run(args: &Args) -> Report {
                 }
                 "hasher" => {
                     check(&mut rep, "C02", "update-once", guarded(|| *api::hasher_for(mode).update(&data).finalize().as_bytes()));
-                    let cut = if n > (1usize << 32) { (1usize << 32) - 1 } else { (1usize << 31) - 1 };
+                    let cut = if n > TWO32 { TWO32.wrapping_sub(1) } else { TWO31 - 1 };
                     check(&mut rep, "C02", "update-split-below-power", guarded(|| *api::hasher_for(mode).update(&data[..cut]).update(&data[cut..]).finalize().as_bytes()));
                     let cut2 = 64 * (1 + rng.usize_below(1000)) + rng.usize_below(64);
                     check(&mut rep, "C02", "update-small-then-rest", guarded(|| *api::hasher_for(mode).update(&data[..cut2]).update(&data[cut2..]).finalize().as_bytes()));
